@@ -313,7 +313,13 @@ func (t *tailBuf) String() string { t.mu.Lock(); defer t.mu.Unlock(); return str
 // execTape runs one tape in a child process and returns (rule, result digest, stderr). Used for fatal-crash shrinking
 // and for replay, where the run may kill the process.
 func execTape(prop, tier string, w, s []uint32) (rule string, v *Violation, digest string, stderr string, err error) {
-	in, _ := json.Marshal(&ReplayFile{W: w, S: s})
+	return execTapeH(prop, tier, 0, nil, w, s)
+}
+
+// execTapeH: like execTape, but the child first executes the live tapes `hist` of `seed` (the runs the original process
+// had executed before), so that process-wide state of the code under test is what it was.
+func execTapeH(prop, tier string, seed uint64, hist []uint64, w, s []uint32) (rule string, v *Violation, digest string, stderr string, err error) {
+	in, _ := json.Marshal(&ReplayFile{W: w, S: s, Seed: seed, History: hist})
 	cmd := exec.Command(os.Args[0], "exec", "--prop", prop, "--tier", tier)
 	cmd.Env = append(os.Environ(), "GORACE=halt_on_error=1 exitcode=66")
 	if execHangS != "" {
@@ -357,6 +363,9 @@ func ExecMain(spec *Spec, tier string) int {
 		return 2
 	}
 	startHangWatchdog()
+	for _, idx := range rf.History {
+		SafeRun(spec.New(tier), NewLiveTape(rf.Seed, idx), false)
+	}
 	res := SafeRun(spec.New(tier), NewReplayTape(rf.W, rf.S), true)
 	b, _ := json.Marshal(map[string]interface{}{"violation": res.Violation, "digest": res.Digest})
 	os.Stdout.Write(b)
@@ -377,7 +386,7 @@ func ReplayMain(path string) int {
 		fmt.Fprintf(os.Stderr, "unknown property %q\n", rf.Property)
 		return 2
 	}
-	rule, v, digest, stderr, err := execTape(rf.Property, rf.Tier, rf.W, rf.S)
+	rule, v, digest, stderr, err := execTapeH(rf.Property, rf.Tier, rf.Seed, rf.History, rf.W, rf.S)
 	if err != nil {
 		fmt.Fprintln(os.Stderr, err)
 		return 2
@@ -511,6 +520,7 @@ func RunMain(prop, tier string, seed uint64) int {
 	infra := false
 	type fatalRun struct {
 		idx               uint64
+		wid               int
 		kind, sig, stderr string
 	}
 	var fatals []fatalRun
@@ -566,7 +576,7 @@ func RunMain(prop, tier string, seed uint64) int {
 					continue
 				}
 			}
-			fatals = append(fatals, fatalRun{idx: r.lastIdx, kind: k, sig: k + " " + fsig, stderr: r.stderr})
+			fatals = append(fatals, fatalRun{idx: r.lastIdx, wid: i, kind: k, sig: k + " " + fsig, stderr: r.stderr})
 		}
 	}
 	// Fatal runs: one representative per distinct diagnostic signature is reproduced in a fresh process and minimised
@@ -583,6 +593,29 @@ func RunMain(prop, tier string, seed uint64) int {
 			W: w, S: s, OrigLen: [2]int{len(w), len(s)}, Fatal: Trunc(fr.stderr, 12000),
 			Violation: &Violation{Rule: fr.kind, Msg: fr.sig, Sig: fr.sig}}
 		rule0, _, _, _, err := execTape(prop, tier, w, s)
+		if err == nil && rule0 != fr.kind && fr.kind == "fatal:data-race" {
+			// The report may depend on process-wide state of the code under test (e.g. which entries of a lazily built
+			// package-level table the earlier runs of that worker process had already initialised): re-execute the
+			// worker's whole sequence up to this run in one fresh process.
+			var hist []uint64
+			for idx := uint64(fr.wid); idx < fr.idx; idx += uint64(len(results)) {
+				hist = append(hist, idx)
+			}
+			if ruleH, vH, _, seH, errH := execTapeH(prop, tier, seed, hist, w, s); errH == nil && ruleH == fr.kind {
+				rf.History = hist
+				rf.Violation = vH
+				rf.Fatal = Trunc(seH, 12000)
+				rf.Note = "reproduces only after the runs listed in process_history have been executed in the same process (process-wide state of the code under test); not minimised"
+				if kf, _ := LoadKnown(); kf != nil {
+					if ke := kf.Match(prop, rf.Violation); ke != nil {
+						knownCount[ke.What]++
+						continue
+					}
+				}
+				viols = append(viols, rf)
+				continue
+			}
+		}
 		if err != nil || rule0 != fr.kind {
 			fmt.Fprintf(os.Stderr, "a worker died (%s) in run %d but the run does not reproduce in a fresh process (%v, got %q): infrastructure failure\n%s\n", fr.kind, fr.idx, err, rule0, Trunc(fr.stderr, 6000))
 			infra = true
